@@ -35,5 +35,12 @@ def compare(ctx, gen, ops, label="api"):
     model = run_model(ctx, gen, ops)
     for i, (o, r, m) in enumerate(zip(ops, real, model)):
         if canon_out(r) != canon_out(m):
+            if gen == 4:
+                # scheduling ties (two one-step timer tasks due in the same tick) are ordered by CPython's timer heap,
+                # which the AirTouch 4 model does not represent: the model reports whether one occurred; such scripts are set aside
+                t = ctx.driver(["api-new 4"] + ["api " + x for x in ops[: i + 1]] + ["api ties"])[-1]
+                if t != "0":
+                    ctx.count("api-tie:set-aside-scheduling-tie")
+                    return real, None
             return real, {"index": i, "op": o, "implementation": r, "model": m}
     return real, None
